@@ -100,9 +100,32 @@ func verifErrorHandler(shape int) func(r *http.Request, err error) http.Handler 
 }
 
 func verifServe(h http.Handler) *verifRW {
+	return verifServeMethod(h, "")
+}
+
+func verifServeMethod(h http.Handler, method string) *verifRW {
 	w := &verifRW{hdr: http.Header{}}
-	h.ServeHTTP(w, &http.Request{})
+	h.ServeHTTP(w, &http.Request{Method: method})
 	return w
+}
+
+// verifLengthConsistent: a Content-Length header, if one is set when the header is committed,
+// announces exactly the body that follows (a recorded writer does not enforce it, a real
+// connection truncates or aborts).
+func (w *verifRW) lengthConsistent() bool {
+	cl := w.hdr.Get("Content-Length")
+	if cl == "" {
+		return true
+	}
+	n, ok := 0, len(cl) > 0
+	for i := 0; i < len(cl); i++ {
+		if cl[i] < '0' || cl[i] > '9' {
+			ok = false
+			break
+		}
+		n = n*10 + int(cl[i]-'0')
+	}
+	return ok && n == len(w.body)
 }
 
 func VerifC11Buffered() {
@@ -127,7 +150,9 @@ func VerifC11Buffered() {
 		symAssume(failWith == verifErrRender)
 	}
 	h := Handler(verifChunksErr(chunks, fail, failWith), opts...)
-	w := verifServe(h)
+	method := []string{"", "GET", "HEAD", "POST"}[symChoose(4)] // all-or-nothing whatever the request method
+	w := verifServeMethod(h, method)
+	symAssert(w.lengthConsistent(), "a Content-Length header announces exactly the body sent")
 	symObserve("body", string(w.body))
 	symObserveInt("status", w.status)
 	if !fail {
